@@ -9,6 +9,18 @@ for fn in sorted(glob.glob(os.path.join(VERIF, "known", "*.json"))):
     f = json.load(open(fn))
     byid[f["id"]] = f
 kf["findings"] = sorted(byid.values(), key=lambda f: (f["property"], f["id"]))
+# the one-line records the interface names: "fixed: property=<id> <commit> <what failed>" for repaired defects,
+# "KNOWN-FINDING: property=<id> <what fails>" (what the check prints) for open ones
+lines = []
+for f in kf["findings"]:
+    f.pop("fixed_line", None)
+    what = " ".join(str(f.get("what_fails", "")).split())
+    if f["status"] == "fixed":
+        f["record"] = "fixed: property=%s %s %s" % (f["property"], f.get("commit", "?"), what)
+    else:
+        f["record"] = "KNOWN-FINDING: property=%s %s" % (f["property"], what)
+    lines.append(f["record"])
+kf["records"] = lines
 json.dump(kf, open(path, "w"), indent=1)
 for f in kf["findings"]:
     print("%-5s %-6s %-45s %s" % (f["property"], f["status"], f["id"], f.get("commit", "")))
